@@ -157,10 +157,10 @@ Proof.
   intros (Hw & Hr & Hwr & Hb & Hnx & Hto & Hce & Hcr & Hcf & Hwo & Hmo) Hn Hlo Hlo' E1 E2 E2' E3 E4 E5 E6 Hm.
   unfold Inv in *. cbn [fst snd] in *. rewrite E1, E3, E4, E5, E6.
   pose proof (cnt_ge holds_read pool i lo Hn) as Hge.
-  repeat apply conj; try assumption.
+  repeat apply conj; try assumption; try apply Hcr.
   - rewrite (cnt_upd _ holds_write _ _ _ _ Hn), Hlo, Hlo'. unfold b2z. lia.
   - rewrite (cnt_upd _ holds_read _ _ _ _ Hn), E2. lia.
-  - intros Ht. rewrite E2, (Hwr Ht), (E2' Ht). rewrite <- Hr, (Hwr Ht) in Hge.
+  - intros Ht. rewrite E2, (Hwr Ht), (E2' Ht). rewrite Hr, (Hwr Ht) in Hge.
     pose proof (cnt_nonneg _ holds_read pool). unfold b2z in *. destruct (holds_read lo); lia.
   - apply Forall_upd; [exact Hwo|]. apply w_ok_out; exact Hlo'.
   - apply Forall_upd; [exact Hmo|exact Hm].
@@ -194,7 +194,7 @@ Proof.
   destruct HI as (Hw & Hr & Hwr & Hb & Hnx & Hto & Hce & Hcr & Hcf & Hwo & Hmo).
   unfold Inv in *. cbn [fst snd] in *. rewrite Hwt in Hw.
   pose proof (cnt_ge holds_read pool i lo Hn) as Hge. rewrite Hr, Hr0 in Hge.
-  repeat apply conj; try assumption.
+  repeat apply conj; try assumption; try apply Hcr'.
   - rewrite (cnt_upd _ holds_write _ _ _ _ Hn), Hlo, E1, Hw. unfold b2z.
     destruct (holds_write lo'); lia.
   - rewrite (cnt_upd _ holds_read _ _ _ _ Hn), Hrd', E2, Hr, Hr0. unfold b2z in *.
@@ -207,6 +207,35 @@ Proof.
     intros t. apply m_ok_mono. exact Hincl.
 Qed.
 
+Lemma w_ok_lt c t : c < bmax -> w_ok c t.
+Proof. unfold w_ok. destruct (k_pc t); auto. Qed.
+
+(* taking the write lock *)
+Lemma inv_lock sh pool i lo sh' lo' :
+  Inv (sh, pool) -> nth_error pool i = Some lo ->
+  holds_write lo = false -> holds_read lo = false ->
+  holds_write lo' = true -> holds_read lo' = false ->
+  k_writer sh = false -> k_readers sh = 0 -> k_writer sh' = true -> k_readers sh' = 0 ->
+  k_budget sh' = k_budget sh -> k_next sh' = k_next sh -> k_count sh' = k_count sh ->
+  k_log sh' = k_log sh ->
+  m_ok (k_log sh) lo' ->
+  Inv (sh', upd i lo' pool).
+Proof.
+  intros (Hw & Hr & Hwr & Hb & Hnx & Hto & Hce & Hcr & Hcf & Hwo & Hmo) Hn Hlo Hrd Hlo' Hrd'
+         W0 R0' W1 R1' E3 E4 E5 E6 Hm.
+  unfold Inv in *. cbn [fst snd] in *. rewrite W1, R1', E3, E4, E5, E6. rewrite W0 in Hw. rewrite R0' in Hr.
+  repeat apply conj; try assumption; try apply Hcr.
+  - rewrite (cnt_upd _ holds_write _ _ _ _ Hn), Hlo, Hlo', Hw. reflexivity.
+  - rewrite (cnt_upd _ holds_read _ _ _ _ Hn), Hrd, Hrd', Hr. reflexivity.
+  - reflexivity.
+  - discriminate.
+  - apply Forall_upd; [exact Hwo|]. apply w_ok_lt. exact (Hcf W0).
+  - apply Forall_upd; [exact Hmo|exact Hm].
+Qed.
+
+Ltac kifs :=
+  repeat match goal with |- context [if ?b then _ else _] => destruct b eqn:? end.
+
 Lemma inv_step s s' : Inv s -> gstep kstep s s' -> Inv s'.
 Proof.
   intros HI Hs. destruct Hs as [sh pool i lo sh' lo' lb Hn Ht].
@@ -216,23 +245,190 @@ Proof.
   pose proof (nth_error_Forall _ _ _ _ _ Hmo Hn) as Hml.
   destruct lo as [kind pc]. unfold kstep in Ht. cbn [k_pc k_kind] in Ht.
   destruct pc as [ | |early| | | | | | |d|r| | |r|r].
-  - (* C0 *)
+  - (* C0: load the fast-fail flag *)
     injection Ht as <- <- _.
-    admit.
-  - admit.
-  - admit.
-  - admit.
-  - admit.
-  - admit.
-  - admit.
-  - admit.
-  - admit.
-  - admit.
-  - admit.
-  - admit.
-  - admit.
-  - admit.
-  - admit.
-Admitted.
+    eapply (inv_frame _ _ _ _ _ _ HI Hn); ksimpl; try reflexivity.
+    + destruct (k_ff sh); reflexivity.
+    + destruct (k_ff sh); ksimpl; lia.
+    + destruct (k_ff sh); reflexivity.
+    + unfold m_ok. ksimpl. destruct kind; auto. destruct (k_ff sh); [discriminate|exact I].
+  - (* C1: RLock *)
+    destruct (k_writer sh) eqn:Hkw; [discriminate|]. injection Ht as <- <- _.
+    eapply (inv_frame _ _ _ _ _ _ HI Hn); ksimpl; try reflexivity.
+    + congruence.
+    + lia.
+    + congruence.
+    + unfold m_ok. ksimpl. destruct kind; exact I.
+  - (* C2: RUnlock *)
+    injection Ht as <- <- _.
+    eapply (inv_frame _ _ _ _ _ _ HI Hn); ksimpl; try reflexivity.
+    + destruct early; reflexivity.
+    + destruct early; ksimpl; lia.
+    + destruct early; reflexivity.
+    + unfold m_ok. ksimpl. destruct kind; auto. destruct early; [discriminate|exact I].
+  - (* C3: Lock *)
+    destruct (k_writer sh) eqn:Hkw; [discriminate|].
+    destruct (k_readers sh =? 0) eqn:Hkr; [|discriminate]. cbn [orb negb] in Ht.
+    injection Ht as <- <- _.
+    eapply (inv_lock _ _ _ _ _ _ HI Hn); ksimpl; try reflexivity; try assumption; try lia.
+  - (* C4: the write-locked test *)
+    destruct (writer_true _ _ _ _ HI Hn eq_refl) as (Hwt & Hr0).
+    destruct (now_of kind <? k_next sh) eqn:E; injection Ht as <- <- _.
+    + eapply (inv_writer _ _ _ _ _ _ HI Hn); ksimpl; try reflexivity.
+      * unfold dl. rewrite lrd_snoc. exact Hnx.
+      * apply Forall_app. split; [exact Hto|]. constructor; [exact I|constructor].
+      * unfold base. rewrite rearmed_snoc, ssr_snoc, orb_false_r. exact Hce.
+      * exact Hcr.
+      * intros _. exact Hwl.
+      * apply incl_appl, incl_refl.
+      * unfold m_ok. ksimpl. destruct kind; auto. discriminate.
+    + assert (Hlt : k_count sh < bmax) by exact Hwl.
+      eapply (inv_writer _ _ _ _ _ _ HI Hn); ksimpl; try reflexivity.
+      * kifs; reflexivity.
+      * kifs; ksimpl; exact Hwt.
+      * unfold dl. rewrite lrd_snoc. exact Hnx.
+      * apply Forall_app. split; [exact Hto|]. constructor; [cbn; lia|constructor].
+      * unfold base in *. rewrite rearmed_snoc, ssr_snoc, orb_false_r. rewrite Hce. ring.
+      * lia.
+      * kifs; ksimpl; discriminate.
+      * unfold w_ok. destruct (k_budget sh <=? k_count sh + 1) eqn:Eb; ksimpl; [exact I|].
+        unfold bmax. lia.
+      * apply incl_appl, incl_refl.
+      * unfold m_ok, has_test. ksimpl. destruct kind as [n|n|v]; try exact I.
+        assert (In (ETest n (k_next sh) true) (k_log sh ++ [ETest n (k_next sh) true]))
+          by (apply in_or_app; right; left; reflexivity).
+        kifs; ksimpl; eauto.
+  - (* S0: Lock *)
+    destruct (k_writer sh) eqn:Hkw; [discriminate|].
+    destruct (k_readers sh =? 0) eqn:Hkr; [|discriminate]. cbn [orb negb] in Ht.
+    injection Ht as <- <- _.
+    eapply (inv_lock _ _ _ _ _ _ HI Hn); ksimpl; try reflexivity; try assumption; try lia.
+    unfold m_ok in *. ksimpl. destruct kind; [contradiction|exact I|exact I].
+  - (* R0: re-arm *)
+    injection Ht as <- <- _.
+    eapply (inv_writer _ _ _ _ _ _ HI Hn); ksimpl; try reflexivity.
+    + apply (writer_true _ _ _ _ HI Hn eq_refl).
+    + unfold dl. rewrite lrd_snoc. reflexivity.
+    + apply Forall_app. split; [exact Hto|]. constructor; [exact I|constructor].
+    + unfold base. rewrite rearmed_snoc, ssr_snoc, orb_true_r. reflexivity.
+    + unfold bmax. lia.
+    + discriminate.
+    + unfold w_ok, bmax. ksimpl. lia.
+    + apply incl_appl, incl_refl.
+    + revert Hml. unfold m_ok, has_test. ksimpl. destruct kind; auto.
+      intros [nx H]. exists nx. apply in_or_app. auto.
+  - (* R1: store fast-fail *)
+    injection Ht as <- <- _.
+    eapply (inv_writer _ _ _ _ _ _ HI Hn); ksimpl; try reflexivity; try assumption.
+    + apply (writer_true _ _ _ _ HI Hn eq_refl).
+    + discriminate.
+    + apply incl_refl.
+  - (* R2: version.Add *)
+    injection Ht as <- <- _.
+    eapply (inv_writer _ _ _ _ _ _ HI Hn); ksimpl; try reflexivity; try assumption.
+    + apply (writer_true _ _ _ _ HI Hn eq_refl).
+    + discriminate.
+    + apply incl_refl.
+  - (* R3: register the timer *)
+    injection Ht as <- <- _.
+    eapply (inv_writer _ _ _ _ _ _ HI Hn); ksimpl; try reflexivity; try assumption.
+    + apply (writer_true _ _ _ _ HI Hn eq_refl).
+    + discriminate.
+    + apply incl_refl.
+    + revert Hml. unfold m_ok. ksimpl. destruct kind; auto.
+  - (* U: Unlock *)
+    injection Ht as <- <- _.
+    eapply (inv_writer _ _ _ _ _ _ HI Hn); ksimpl; try reflexivity; try assumption.
+    + intros _. exact Hwl.
+    + apply incl_refl.
+    + revert Hml. unfold m_ok. ksimpl. destruct kind; auto.
+      destruct r; cbn [bz]; [auto|discriminate].
+  - (* K0: callback loads the version *)
+    destruct kind as [n|n|v]; try discriminate. injection Ht as <- <- _.
+    eapply (inv_frame _ _ _ _ _ _ HI Hn); ksimpl; try reflexivity.
+    + kifs; reflexivity.
+    + kifs; ksimpl; lia.
+    + kifs; reflexivity.
+  - (* K1: callback clears the fast-fail flag *)
+    injection Ht as <- <- _.
+    eapply (inv_frame _ _ _ _ _ _ HI Hn); ksimpl; try reflexivity.
+    + lia.
+    + unfold m_ok. ksimpl. destruct kind; auto. discriminate.
+  - (* KFinish *)
+    injection Ht as <- <- _.
+    eapply (inv_frame _ _ _ _ _ _ HI Hn); ksimpl; try reflexivity.
+    + lia.
+    + exact Hml.
+  - discriminate.
+Qed.
+
+Lemma inv_reachable pool0 s :
+  all_fresh_k pool0 ->
+  k_writer sh0 = false /\ k_readers sh0 = 0 /\ k_log sh0 = [] ->
+  0 <= k_count sh0 < Z.max 1 (k_budget sh0) ->
+  reach kstep (sh0, pool0) s -> Inv s.
+Proof.
+  intros Hp Hf Hc Hr. exact (inv_reach _ _ _ Inv _ (inv_init pool0 Hp Hf Hc) inv_step s Hr).
+Qed.
 
 End Inv.
+
+(* ---------- the theorems ---------- *)
+Theorem l2_exclusion (sh0 : kshared) (pool0 : list kthread)
+  (Hpool : all_fresh_k pool0)
+  (Hfree : k_writer sh0 = false /\ k_readers sh0 = 0 /\ k_log sh0 = [])
+  (Hcount : 0 <= k_count sh0 < Z.max 1 (k_budget sh0)) :
+  forall s, reach kstep (sh0, pool0) s ->
+  cnt holds_write (snd s) = (if k_writer (fst s) then 1 else 0) /\
+  cnt holds_read (snd s) = k_readers (fst s) /\
+  (k_writer (fst s) = true -> k_readers (fst s) = 0).
+Proof.
+  intros s Hr.
+  destruct (inv_reachable sh0 pool0 s Hpool Hfree Hcount Hr) as (H1 & H2 & H3 & _). auto.
+Qed.
+
+Theorem l2_deadline (sh0 : kshared) (pool0 : list kthread)
+  (Hpool : all_fresh_k pool0)
+  (Hfree : k_writer sh0 = false /\ k_readers sh0 = 0 /\ k_log sh0 = [])
+  (Hcount : 0 <= k_count sh0 < Z.max 1 (k_budget sh0)) :
+  forall s, reach kstep (sh0, pool0) s ->
+  k_next (fst s) = match last_rearm_deadline (k_log (fst s)) with Some D => D | None => k_next sh0 end.
+Proof.
+  intros s Hr.
+  destruct (inv_reachable sh0 pool0 s Hpool Hfree Hcount Hr) as (_ & _ & _ & _ & H & _). exact H.
+Qed.
+
+Theorem l2_closed_until (sh0 : kshared) (pool0 : list kthread)
+  (Hpool : all_fresh_k pool0)
+  (Hfree : k_writer sh0 = false /\ k_readers sh0 = 0 /\ k_log sh0 = [])
+  (Hcount : 0 <= k_count sh0 < Z.max 1 (k_budget sh0)) :
+  forall s, reach kstep (sh0, pool0) s ->
+  Forall (fun e => match e with ETest now next true => next <= now | _ => True end) (k_log (fst s)) /\
+  Forall (fun t => match k_kind t, k_pc t with
+                   | KCheck _, (KFinish 1 | KDone 1) => exists now next, In (ETest now next true) (k_log (fst s)) /\ now_of (k_kind t) = now
+                   | _, _ => True end) (snd s).
+Proof.
+  intros s Hr.
+  destruct (inv_reachable sh0 pool0 s Hpool Hfree Hcount Hr)
+    as (_ & _ & _ & _ & _ & Hto & _ & _ & _ & _ & Hmo).
+  split; [exact Hto|]. eapply Forall_impl; [|exact Hmo].
+  intros t. unfold m_ok, has_test. destruct (k_kind t) as [n|n|v] eqn:Ek; try (intros; exact I).
+  destruct (k_pc t) as [ | |early| | | | | | |d|r| | |r|r]; try (intros; exact I);
+    destruct r as [|[p|p|]|p]; try (intros; exact I);
+    intros H; destruct (H eq_refl) as [nx Hin]; exists n, nx; (split; [exact Hin|reflexivity]).
+Qed.
+
+Theorem l2_budget (sh0 : kshared) (pool0 : list kthread)
+  (Hpool : all_fresh_k pool0)
+  (Hfree : k_writer sh0 = false /\ k_readers sh0 = 0 /\ k_log sh0 = [])
+  (Hcount : 0 <= k_count sh0 < Z.max 1 (k_budget sh0)) :
+  forall s, reach kstep (sh0, pool0) s ->
+  k_count (fst s) = (if rearmed (k_log (fst s)) then 0 else k_count sh0) + successes_since_rearm (k_log (fst s)) /\
+  0 <= k_count (fst s) <= Z.max 1 (k_budget sh0) /\
+  (k_writer (fst s) = false -> k_count (fst s) < Z.max 1 (k_budget sh0)).
+Proof.
+  intros s Hr.
+  destruct (inv_reachable sh0 pool0 s Hpool Hfree Hcount Hr)
+    as (_ & _ & _ & _ & _ & _ & H1 & H2 & H3 & _).
+  auto.
+Qed.
